@@ -219,13 +219,33 @@ def _h5(ctx, rep):
     rep.check(p == ["is_physical_qobjects_all"], "H5", f, "ProjectedLinearEstimator", "checks both constraints",
               "projected linear estimates are checked with %s, expected is_physical_qobjects_all (eq and ineq)" % p, node=branches["ProjectedLinearEstimator"])
     lb = branches["LinearEstimator"]
-    inner = [n for n in lb.body if isinstance(n, ast.If)]
+    # path-sensitive: on the paths taken for a LinearEstimator, the equality check is returned exactly when the estimate's
+    # on_para_eq_constraint is set; otherwise True is returned (nothing to check)
+    from ..symsum import cases, returning
     ok = False
     why = "linear estimates must be checked for the equality constraint exactly when on_para_eq_constraint is set"
-    if len(inner) == 1 and unparse(inner[0].test) == "para":
-        pdef = [s for s in lb.body if isinstance(s, ast.Assign) and unparse(s.targets[0]) == "para"]
-        ok = calls(inner[0].body) == ["is_eq_constraint_satisfied_all"] and not calls(inner[0].orelse) and len(pdef) == 1 \
-            and unparse(pdef[0].value).endswith(".on_para_eq_constraint")
+    cs = cases(f)
+    if cs:
+        seen = {}
+        for c in returning(cs):
+            g = {t: pol for t, pol, _ in c.guards}
+            lin = [pol for t, pol in g.items() if t.endswith("== LinearEstimator")]
+            if not lin or lin[0] is not True:
+                continue
+            para = [pol for t, pol in g.items() if t.endswith(".on_para_eq_constraint")]
+            if len(para) != 1:
+                seen["?"] = unparse(c.value) if c.value is not None else None
+                continue
+            v = c.value
+            if isinstance(v, ast.Call):
+                seen.setdefault(para[0], set()).add((dotted(v.func) or "").split(".")[-1])
+            elif isinstance(v, ast.Constant):
+                seen.setdefault(para[0], set()).add(v.value)
+            else:
+                seen.setdefault(para[0], set()).add(unparse(v) if v is not None else None)
+        ok = seen.get(True) == {"is_eq_constraint_satisfied_all"} and seen.get(False) == {True} and "?" not in seen
+        if not ok:
+            why += " (paths: %s)" % {str(k): sorted(map(str, v)) if isinstance(v, set) else v for k, v in seen.items()}
     rep.check(ok, "H5", f, "LinearEstimator", "eq constraint iff parametrised", why, node=lb)
     mb = branches["LossMinimizationEstimator"]
     txt = {}
